@@ -127,11 +127,23 @@ pub fn replay(shapes: &[Value], seed: u64, reps: usize, rep: &mut Report, trace:
                 }
             }
             let mut candidates: Vec<String> = reported.clone();
-            if let Some(r) = reported.first() {
-                candidates.push(format!("{r}x"));
-                candidates.push(r.to_uppercase());
+            // near misses of EVERY reported id (the full-name id and the mod-part id): a letter appended, the last one dropped,
+            // upper case, only the first / only the last letter in upper case
+            for r in reported.clone() {
+                let mut near = vec![format!("{r}x"), r.to_uppercase()];
                 if r.len() > 1 {
-                    candidates.push(r[.. r.len() - 1].to_string());
+                    near.push(r[.. r.len() - 1].to_string());
+                }
+                if let Some(f) = r.chars().next() {
+                    near.push(f.to_uppercase().collect::<String>() + &r[f.len_utf8() ..]);
+                }
+                if let Some(l) = r.chars().last() {
+                    near.push(r[.. r.len() - l.len_utf8()].to_string() + &l.to_uppercase().collect::<String>());
+                }
+                for c in near {
+                    if !candidates.contains(&c) {
+                        candidates.push(c);
+                    }
                 }
             }
             // every number written in the name (inner, trailing, bracketed year) attached to / removed from a reported id: the ids a
